@@ -159,7 +159,12 @@ func vpGetKDCs(c *krbconfig.Config, realm string, tcp bool) (int, map[int]string
 		// randServOrder picks the servers in random order and, while it does so, swaps entries of the list
 		// it was given — which is the realm's list inside the Config, not a copy. Nothing in gokrb5
 		// synchronises this: callers that share a Config have to.
-		vpRealmList.first, vpRealmList.last = vpRealmList.last, vpRealmList.first
+		tmp := vpRealmList.first
+		if !vpSymbolic() {
+			time.Sleep(200 * time.Microsecond) // (native replay only: the library loops over the list here)
+		}
+		vpRealmList.first = vpRealmList.last
+		vpRealmList.last = tmp
 	}
 	m := map[int]string{}
 	for i := 1; i <= n; i++ {
@@ -624,16 +629,24 @@ func VP_C09_kdc_lookups() {
 	vpUDPn, vpTCPn = 0, 2
 	vpAllDialsFail = true
 	proxy := vpProxy()
-	var errs [2]error
+	// through the handler, as the HTTP server calls it (its receiver is a VALUE: every request works on a
+	// copy of the proxy, whatever the copies share is shared between requests)
+	vpDERok, vpRest = true, 0
+	vpMsg = KdcProxyMsg{Message: []byte{0, 0, 0, 1, 0x60}, Realm: "BRANCH.TEST"}
+	var ws [2]*vpRW
+	serve := func(i int) {
+		ws[i] = &vpRW{hdr: http.Header{}}
+		proxy.Handler(ws[i], &http.Request{Method: "POST", ContentLength: 4, Body: &vpBody{data: make([]byte, 4)}})
+	}
 	vpPar(func() {
 		vpThread("A")
-		_, errs[0] = proxy.forward("BRANCH.TEST", []byte{0, 0, 0, 1, 0x60})
+		serve(0)
 	}, func() {
 		vpThread("B")
-		_, errs[1] = proxy.forward("BRANCH.TEST", []byte{0, 0, 0, 1, 0x61})
+		serve(1)
 	})
 	vpThread("setup")
 	vpReach("done")
-	vpAssert(errs[0] != nil && errs[1] != nil, "no-kdc-reachable-is-an-error-for-each-request")
+	vpAssert(ws[0].status == 503 && ws[1].status == 503, "no-kdc-reachable-is-503-for-each-request")
 	vpAssert(len(vpDialLog) == 4, "each-request-tries-both-kdcs")
 }
